@@ -2,6 +2,7 @@
 
     python tools/make_seed_prompts.py <round-dir> theme     # round 4: one cross-cutting kind of maintenance work per author
     python tools/make_seed_prompts.py <round-dir> surface   # round 5: one slice of the public API/CLI surface per author
+    python tools/make_seed_prompts.py <round-dir> gaps COV.json   # round 6: code the test suite never executes (coverage.py json report)
 
 Each author gets: the given property texts (properties.jsonl), one-line summaries of what EARLIER AUTHORS tried (taken
 from their own notes, i.e. seeded/*/meta.json 'needs_to_manifest'), and a scratch worktree. Nothing about the checks.
@@ -45,6 +46,49 @@ SURFACES = {
     "parallel_lock": "cooler.parallel (split, MultiplexDataPipe: prepare/pipe/run/gather/reduce, partition, chunkgetter, lock usage) and every place a `map` or `lock` argument is accepted (balance_cooler, coarsen_cooler, zoomify_cooler, create with lock=) including multiprocess pools with map / imap / imap_unordered",
 }
 
+# round 6: groups of files; each author is told which lines and branches the existing test suite never executes
+GAP_GROUPS = {
+    "gap_ingest": ["cooler/create/_ingest.py"],
+    "gap_create": ["cooler/create/_create.py"],
+    "gap_cload": ["cooler/cli/cload.py"],
+    "gap_rangequery_api": ["cooler/core/_rangequery.py", "cooler/api.py", "cooler/core/_tableops.py", "cooler/core/_selectors.py"],
+    "gap_cliutil_load": ["cooler/cli/_util.py", "cooler/cli/load.py"],
+    "gap_reduce_balance": ["cooler/_reduce.py", "cooler/_balance.py", "cooler/parallel.py"],
+    "gap_fileops_zoomify": ["cooler/fileops.py", "cooler/cli/zoomify.py", "cooler/cli/fileops.py"],
+    "gap_cli_rest_util": ["cooler/cli/dump.py", "cooler/cli/balance.py", "cooler/cli/digest.py", "cooler/cli/makebins.py",
+                          "cooler/cli/merge.py", "cooler/cli/info.py", "cooler/util.py"],
+}
+
+
+def _ranges(nums):
+    out, start, prev = [], None, None
+    for n in sorted(nums):
+        if start is None:
+            start = prev = n
+        elif n == prev + 1:
+            prev = n
+        else:
+            out.append(f"{start}-{prev}" if prev > start else str(start))
+            start = prev = n
+    if start is not None:
+        out.append(f"{start}-{prev}" if prev > start else str(start))
+    return ", ".join(out)
+
+
+def gap_assignment(files, cov):
+    lines = []
+    for f in files:
+        key = next(k for k in cov["files"] if k.endswith(f))
+        v = cov["files"][key]
+        br = sorted({int(a) for a, b in v.get("missing_branches", [])})
+        lines.append(f"  src/{f}: never executed lines: {_ranges(v['missing_lines']) or 'none'}; "
+                     f"conditions of which one outcome is never taken, at lines: {_ranges(br) or 'none'}")
+    return ("CODE THE EXISTING TESTS NEVER EXERCISE. A coverage run of the test suite (line + branch) reports for your files:\n"
+            + "\n".join(lines) + "\nAny edit inside never-executed code passes the suite trivially, so concentrate on making it a change "
+            "that a maintainer would plausibly commit and that breaks a property for the inputs, options or states that reach that code "
+            "(work out what reaches it). The main edit of each change must sit on (or decide) one of the listed lines/branches.")
+
+
 SURFACE_LINE = "a SLICE OF THE PUBLIC SURFACE rather than a file: {theme}.\nRead the documentation strings and the code behind these entry points, list their options and argument forms, and look for options, option COMBINATIONS and argument forms that the tests never exercise; a maintainer touching the code behind them could plausibly slip there."
 
 TMPL = '''You are helping to evaluate a verification effort for the open-source Python library open2c/cooler (HDF5-based sparse genomic contact matrices). Your job is to play the role of a developer who introduces a SUBTLE BUG.
@@ -85,13 +129,16 @@ def main():
         prior.append(f"- ({m['property']}) " + " ".join(lines)[:200])
     os.makedirs(os.path.join(root, "prompts"), exist_ok=True)
     mode = sys.argv[2] if len(sys.argv) > 2 else "theme"
-    table = THEMES if mode == "theme" else SURFACES
+    table = THEMES if mode == "theme" else SURFACES if mode == "surface" else GAP_GROUPS
+    cov = json.load(open(sys.argv[3])) if mode == "gaps" else None
     for k, theme in table.items():
         if mode == "theme":
             assignment = ("a KIND OF WORK rather than a file: " + theme + ".\nRead through src/cooler (library and cli/) looking for "
                           "places where a maintainer doing that kind of work could plausibly slip.")
-        else:
+        elif mode == "surface":
             assignment = SURFACE_LINE.format(theme=theme)
+        else:
+            assignment = gap_assignment(theme, cov)
         wt = os.path.join(root, k)
         if not os.path.exists(wt):
             subprocess.run(["git", "-C", "/repo", "worktree", "add", "-q", "--detach", wt, "HEAD"], check=True)
